@@ -12,7 +12,9 @@ from gen_engine import dumps  # noqa: E402
 LEAN_MODULES = ["KmipModel.Props.C03", "KmipModel.Props.C03Engine", "KmipModel.Props.C20Engine"]
 RULE = ("decision table: every cell of permission x owner/other x groups x section presence x entry presence is "
         "evaluated on the real _is_allowed_by_operation_policy, on the Lean model and on an independent reading of "
-        "the property text; histories: seeded adaptive generation (identities, built-in + generated policies, all "
+        "the property text; policy FILES: documents mixing sectioned and legacy policies loaded with the real "
+        "read_policy_from_file, the real decision under the parsed policies against the property text read on the "
+        "document; histories: seeded adaptive generation (identities, built-in + generated policies, all "
         "operations); a history line is non-trivial when it addresses an existing object (granted or denied) or "
         "creates one; distinct = distinct (request, identity, outcome shape)")
 ASSUMPTIONS = ["identities with an empty-string group name are outside the explored domain",
@@ -95,6 +97,88 @@ def run_decision_table(ctx):
     return len(cells), n_true
 
 
+def file_phase(ctx):
+    """the policies in force come from policy FILES: documents mixing the sectioned and the legacy (flat) format are
+    loaded with the real read_policy_from_file; what the real decision function then grants under the parsed policies
+    must be granted by the property text read on the DOCUMENT (converted independently of the parser)"""
+    import json as _json
+    import random
+    import tempfile
+    import impl_engine
+    from kmip.core import enums, policy as core_policy
+    rnd = random.Random(ctx.seed * 7919 + 303)
+    perms = ["ALLOW_ALL", "ALLOW_OWNER", "DISALLOW_ALL"]
+    OTS, OPS = ["SYMMETRIC_KEY", "SECRET_DATA"], ["GET", "LOCATE", "DESTROY"]
+
+    def table():
+        t = {}
+        for ot in OTS:
+            if rnd.random() < 0.85:
+                t[ot] = {op: rnd.choice(perms) for op in OPS if rnd.random() < 0.85}
+        return t
+
+    def conv(t):
+        return [[enums.ObjectType[ot].value, [[enums.Operation[op].value, p] for op, p in ops.items()]] for ot, ops in t.items()]
+    n = 40 if ctx.tier == "quick" else 600
+    cells = granted = 0
+    E = impl_engine.ImplEngine()
+    wd = tempfile.mkdtemp(prefix="c03pol")
+    try:
+        eng = E.engine
+        for k in range(n):
+            doc, spec = {}, []
+            for i in range(rnd.choice([2, 3, 3, 4])):
+                name = "pol%d" % i
+                kind = rnd.choice(["sectioned", "sectioned", "legacy", "legacy", "preset-only", "groups-only"])
+                if kind == "legacy":
+                    t = table()
+                    doc[name] = t
+                    spec.append([name, {"preset": conv(t), "groups": None}])
+                else:
+                    d, b = {}, {"preset": None, "groups": None}
+                    if kind in ("sectioned", "preset-only"):
+                        t = table()
+                        d["preset"] = t
+                        b["preset"] = conv(t)
+                    if kind in ("sectioned", "groups-only"):
+                        gs = {g: table() for g in rnd.sample(["g1", "g2", "g3"], rnd.choice([1, 2]))}
+                        d["groups"] = gs
+                        b["groups"] = [[g, conv(t)] for g, t in gs.items()]
+                    doc[name] = d
+                    spec.append([name, b])
+            path = os.path.join(wd, "p%d.json" % k)
+            with open(path, "w") as f:
+                _json.dump(doc, f)
+            try:
+                parsed = core_policy.read_policy_from_file(path)
+            except Exception:
+                continue                    # a document the parser refuses puts no policy in force
+            eng._operation_policies = parsed
+            for name in doc:
+                for user in ("alice", "bob"):
+                    for groups in (None, ["g1"], ["g2"], ["g3"], ["g1", "g2"]):
+                        for ot in OTS:
+                            for op in OPS:
+                                cells += 1
+                                a = bool(eng._is_allowed_by_operation_policy(
+                                    name, (user, groups), "alice", enums.ObjectType[ot], enums.Operation[op]))
+                                t = M.text_grant(spec, name, user, groups, "alice", enums.ObjectType[ot].value,
+                                                 enums.Operation[op].value)
+                                granted += 1 if a else 0
+                                if a and not t:
+                                    ctx.report("c03:file-policy-allows-without-grant",
+                                               "under the policies loaded from a policy file, %s is granted to (%s, %s) on "
+                                               "alice's %s by policy %s although the document grants nothing of the kind"
+                                               % (op, user, groups, ot, name),
+                                               {"kind": "policy-file", "document": doc, "policy": name, "user": user,
+                                                "groups": groups, "otype": ot, "op": op})
+    finally:
+        E.close()
+        import shutil
+        shutil.rmtree(wd, ignore_errors=True)
+    return cells, granted
+
+
 def nontrivial(j, o):
     if "results" not in o:
         return False
@@ -107,7 +191,10 @@ def run(ctx):
     stats = engine_check.standard_run(
         ctx, PROFILE, MONITORS, nontrivial, RULE, n_quick=160, n_thorough=2500, length=30,
         extra_cov={"decision_cells": ncell, "decision_cells_allowed": ntrue, "decision_table_exhaustive": True})
-    ctx.coverage["evaluations"] = ctx.coverage["evaluations"] + ncell
+    fcells, fgranted = file_phase(ctx)
+    ctx.coverage["policy_file_decision_cells"] = fcells
+    ctx.coverage["policy_file_decision_cells_allowed"] = fgranted
+    ctx.coverage["evaluations"] = ctx.coverage["evaluations"] + ncell + fcells
 
 
 def search(ctx, broken):
@@ -117,6 +204,26 @@ def search(ctx, broken):
 
 def replay(ctx, rep):
     r = rep.get("replay", rep)
+    if r.get("kind") == "policy-file":
+        import tempfile
+        import json as _json
+        import impl_engine
+        from kmip.core import enums, policy as core_policy
+        wd = tempfile.mkdtemp(prefix="c03pol")
+        E = impl_engine.ImplEngine()
+        try:
+            path = os.path.join(wd, "p.json")
+            with open(path, "w") as f:
+                _json.dump(r["document"], f)
+            E.engine._operation_policies = core_policy.read_policy_from_file(path)
+            a = bool(E.engine._is_allowed_by_operation_policy(r["policy"], (r["user"], r["groups"]), "alice",
+                                                              enums.ObjectType[r["otype"]], enums.Operation[r["op"]]))
+            print("  granted now: %s (the document grants nothing of the kind)" % a)
+            return not a
+        finally:
+            E.close()
+            import shutil
+            shutil.rmtree(wd, ignore_errors=True)
     if r.get("kind") == "decision-cell":
         import impl_engine
         E = impl_engine.ImplEngine()
